@@ -5,6 +5,7 @@ import (
 	"fmt"
 	"os"
 	"strings"
+	"sync"
 	"sync/atomic"
 	"testing"
 	"time"
@@ -387,16 +388,126 @@ var propLife = hx.Prop[LCase]{
 	},
 }
 
+// ---- storm: mail keeps arriving, unpaced, while a scan runs ----
+
+type StCase struct {
+	Backend string `json:"backend"`
+	NBox    int    `json:"nbox"`
+	Old     int    `json:"old"`     // expired messages per mailbox before the scan
+	Senders int    `json:"senders"` // concurrent deliverers
+	Each    int    `json:"each"`    // deliveries per deliverer
+}
+
+var propStorm = hx.Prop[StCase]{
+	ID: pid, Name: "storm",
+	Rule: "1-3 mailboxes of one lock bucket hold 3-40 expired messages each; a scan (period 1 h, no pause) runs while 1-4 goroutines deliver 5-40 young " +
+		"messages each into the same mailboxes at full speed (no yield points: whatever interleaving the scheduler gives, under the race detector); " +
+		"afterwards every expired message is gone, every young one is there with its content, and the scan reported no error; non-trivial = at least " +
+		"two deliverers and ten expired messages per mailbox; distinct = distinct case JSON",
+	Quick: 40, Thorough: 400,
+	Gen: func(t *rapid.T) StCase {
+		return StCase{Backend: rapid.SampledFrom([]string{"file", "file", "mem"}).Draw(t, "backend"), NBox: rapid.IntRange(1, 3).Draw(t, "nbox"),
+			Old: rapid.SampledFrom([]int{3, 10, 40}).Draw(t, "old"), Senders: rapid.IntRange(1, 4).Draw(t, "senders"), Each: rapid.SampledFrom([]int{5, 15, 40}).Draw(t, "each")}
+	},
+	Run: func(c StCase) *hx.Outcome {
+		o := &hx.Outcome{}
+		host := extension.NewHost()
+		var st storage.Store
+		if c.Backend == "file" {
+			dir := hx.TempDir()
+			defer os.RemoveAll(dir)
+			st = hx.NewFile(host, dir, 0)
+		} else {
+			st = hx.NewMem(host, 0, 0)
+		}
+		names := boxNames(c.NBox)
+		type rec struct{ box, id, body string }
+		var old []rec
+		for _, b := range names {
+			for i := 0; i < c.Old; i++ {
+				id, err := st.AddMessage(hx.NewDelivery(b, nil, nil, time.Now().Add(-48*time.Hour), "old", []byte("old")))
+				if err != nil {
+					o.Failf(pid+":harness", "AddMessage: %v", err)
+					return o
+				}
+				old = append(old, rec{b, id, "old"})
+			}
+		}
+		var mu sync.Mutex
+		var young []rec
+		var errs []string
+		var wg sync.WaitGroup
+		start := make(chan struct{})
+		for s := 0; s < c.Senders; s++ {
+			wg.Add(1)
+			go func(s int) {
+				defer wg.Done()
+				<-start
+				for k := 0; k < c.Each; k++ {
+					b := names[(s+k)%len(names)]
+					body := fmt.Sprintf("young %d.%d", s, k)
+					id, err := st.AddMessage(hx.NewDelivery(b, nil, nil, time.Now(), "young", []byte(body)))
+					mu.Lock()
+					if err != nil {
+						errs = append(errs, fmt.Sprintf("delivery %d.%d to %s: %v", s, k, b, err))
+					} else {
+						young = append(young, rec{b, id, body})
+					}
+					mu.Unlock()
+				}
+			}(s)
+		}
+		rs := storage.NewRetentionScanner(config.Storage{RetentionPeriod: time.Hour, RetentionSleep: 0}, st)
+		scanErr := make(chan error, 1)
+		go func() { <-start; scanErr <- rs.DoScan(context.Background()) }()
+		close(start)
+		wg.Wait()
+		select {
+		case err := <-scanErr:
+			if err != nil {
+				o.Failf(pid+":scan-error", "[%s] DoScan returned %v while mail was arriving", c.Backend, err)
+			}
+		case <-time.After(60 * time.Second):
+			o.Failf(pid+":scan-hangs", "[%s] DoScan did not return within 60 s", c.Backend)
+			return o
+		}
+		for _, e := range errs {
+			o.Failf(pid+":delivery-failed", "[%s] %s", c.Backend, e)
+		}
+		for _, y := range young {
+			sm, err := st.GetMessage(y.box, y.id)
+			if err != nil || sm == nil {
+				o.Failf(pid+":young-deleted", "[%s, %d expired per mailbox, %d deliverers] message %s/%s, delivered during the scan, is gone (%v)", c.Backend, c.Old, c.Senders, y.box, y.id, err)
+				break
+			}
+			if b, rerr := hx.ReadSource(sm); rerr != nil || string(b) != y.body {
+				o.Failf(pid+":content", "[%s] message %s/%s delivered during the scan reads %q (%v), want %q", c.Backend, y.box, y.id, b, rerr, y.body)
+				break
+			}
+		}
+		for _, x := range old {
+			if sm, err := st.GetMessage(x.box, x.id); err == nil && sm != nil {
+				o.Failf(pid+":expired-kept", "[%s] expired message %s/%s survived a scan that started after it was stored", c.Backend, x.box, x.id)
+				break
+			}
+		}
+		o.NonTrivial = c.Senders >= 2 && c.Old >= 10
+		o.Class("backend " + c.Backend)
+		return o
+	},
+}
+
 func TestProp(t *testing.T) {
+	t.Run("storm", propStorm.Check)
 	t.Run("scan", prop.Check)
 	t.Run("lifecycle", propLife.Check)
 }
-func TestRegress(t *testing.T) { prop.Regress(t); propLife.Regress(t) }
+func TestRegress(t *testing.T) { prop.Regress(t); propLife.Regress(t); propStorm.Regress(t) }
 func TestReplay(t *testing.T) {
 	if *hx.ReplayPath == "" {
 		t.Skip("no -replay")
 	}
-	if !prop.Replay(t, *hx.ReplayPath) && !propLife.Replay(t, *hx.ReplayPath) {
+	if !prop.Replay(t, *hx.ReplayPath) && !propLife.Replay(t, *hx.ReplayPath) && !propStorm.Replay(t, *hx.ReplayPath) {
 		t.Fatalf("no prop matches %s", *hx.ReplayPath)
 	}
 }
